@@ -301,3 +301,10 @@ benign('C07', 'dump bounds via two-arg min', DD, "ylo_bound = ylo + min((0.0, yz
 benign('C07', 'dump x bounds as sum of minima', DD, "xlo_bound = xlo + min((0.0, xy, xz, xy + xz))", "xlo_bound = xlo + min(0.0, xy) + min(0.0, xz)")
 benign('C07', 'tilt test as any', AD, "if xy != 0.0 or xz != 0.0 or yz != 0.0:", "if not (xy == 0.0 and xz == 0.0 and yz == 0.0):")
 benign('C07', 'poscar scale by reciprocal', PD, "pos = pos / box_scale", "pos = pos * (1 / box_scale)")
+
+# ------------------------------------------------------------------ seeded-change regressions (C09 memo)
+_MEMO = [(UC, "def build_unit():", "_parsed = {}\n\ndef build_unit():"),
+         (UC, "    elif isinstance(units, str):\n", "    elif isinstance(units, str):\n        if units in _parsed:\n            return _parsed[units]\n"),
+         (UC, "        return terms[0]\n", "        _parsed[units] = terms[0]\n        return terms[0]\n")]
+mutant('C09', 'parse memo cleared only on named reset', _MEMO + [(UC, "        nu.reset_units('SI')\n        build_unit()\n", "        nu.reset_units('SI')\n        build_unit()\n        _parsed.clear()\n")], None, None, 'DERIVED-STATE')
+benign('C09', 'parse memo cleared on every reset', _MEMO + [(UC, "    # Generate random base working units\n", "    _parsed.clear()\n    # Generate random base working units\n")], None, None)
